@@ -95,7 +95,13 @@ fn depth1(l0: &[Expr], s0: &[Expr]) -> Vec<Expr> {
 /// a spread of depth-1 expressions used as sub-expressions at depth 2
 fn d1_sample(d1: &[Expr], n: usize) -> Vec<Expr> {
     let step = (d1.len() / n).max(1);
-    d1.iter().step_by(step).take(n).cloned().collect()
+    let mut v: Vec<Expr> = d1.iter().step_by(step).take(n).cloned().collect();
+    // whatever the spread picks, every constructor of depth 1 occurs once as a sub-expression (SUM stored as PtgAttrSum under an
+    // operator, in parentheses and as a function argument; a zero-argument call; a variable-arity call)
+    for want in [|e: &Expr| matches!(e, Expr::AttrSum(_)), |e: &Expr| matches!(e, Expr::Unary(..)), |e: &Expr| matches!(e, Expr::Paren(_)), |e: &Expr| matches!(e, Expr::Func(_, _, a, false) if a.is_empty()), |e: &Expr| matches!(e, Expr::Func(_, _, _, true)), |e: &Expr| matches!(e, Expr::Binary(..))] {
+        if !v.iter().any(want) { if let Some(e) = d1.iter().find(|e| want(e)) { v.push(e.clone()); } }
+    }
+    v
 }
 
 fn depth2(d1s: &[Expr], s0: &[Expr]) -> Vec<Expr> {
